@@ -20,6 +20,10 @@ CHECKS = {
     "C02": "checks.c02",
     "C05": "checks.c05",
     "C11": "checks.c11",
+    "C09": "checks.c09",
+    "C20": "checks.c20",
+    "C14": "checks.c14",
+    "C16": "checks.c16",
     "C19": "checks.c19",
     "C06": "checks.c06",
     "C08": "checks.c08",
